@@ -11,6 +11,7 @@ import (
 	"context"
 	"crypto/sha256"
 	"encoding/hex"
+	"errors"
 	"sort"
 	"sync"
 
@@ -181,11 +182,18 @@ type DBProxy struct {
 	TotalWrites int    // write calls since the proxy was created
 	Writes      int    // write calls seen since Arm/Reset
 	CrashAt     int    // 0 = never
-	CrashMode   string // "before" | "after"
+	CrashMode   string // "before" | "after" | "error" (the k-th write call fails with an error and is not performed; no crash)
+	Injected    bool   // the "error" fault was delivered
+	failNow     bool
 	WriteLog    []string
 }
 
-func (p *DBProxy) ResetCounters() { p.Writes, p.CrashAt, p.CrashMode, p.WriteLog = 0, 0, "", nil }
+// ErrInjectedWrite is the error an "error" fault makes a write call return.
+var ErrInjectedWrite = errors.New("runh: injected database write error")
+
+func (p *DBProxy) ResetCounters() {
+	p.Writes, p.CrashAt, p.CrashMode, p.WriteLog, p.Injected, p.failNow = 0, 0, "", nil, false, false
+}
 
 func (p *DBProxy) pre(what string, prefix, key []byte) {
 	p.Writes++
@@ -194,6 +202,16 @@ func (p *DBProxy) pre(what string, prefix, key []byte) {
 	if p.CrashAt == p.Writes && p.CrashMode == "before" {
 		panic(CrashSentinel{p.Writes, "before"})
 	}
+	if p.CrashAt == p.Writes && p.CrashMode == "error" {
+		p.failNow, p.Injected = true, true
+	}
+}
+
+// fail reports (once) that the current write call must return ErrInjectedWrite instead of writing.
+func (p *DBProxy) fail() bool {
+	f := p.failNow
+	p.failNow = false
+	return f
 }
 func (p *DBProxy) post() {
 	if p.CrashAt == p.Writes && p.CrashMode == "after" {
@@ -212,30 +230,45 @@ func printable(b []byte) string {
 
 func (p *DBProxy) Set(prefix, key, value []byte) error {
 	p.pre("Set", prefix, key)
+	if p.fail() {
+		return ErrInjectedWrite
+	}
 	err := p.Database.Set(prefix, key, value)
 	p.post()
 	return err
 }
 func (p *DBProxy) Delete(prefix, key []byte) error {
 	p.pre("Delete", prefix, key)
+	if p.fail() {
+		return ErrInjectedWrite
+	}
 	err := p.Database.Delete(prefix, key)
 	p.post()
 	return err
 }
 func (p *DBProxy) SetMany(prefix []byte, n int, next func(int) (basedb.Obj, error)) error {
 	p.pre("SetMany", prefix, nil)
+	if p.fail() {
+		return ErrInjectedWrite
+	}
 	err := p.Database.SetMany(prefix, n, next)
 	p.post()
 	return err
 }
 func (p *DBProxy) DeletePrefix(prefix []byte) (int, error) {
 	p.pre("DeletePrefix", prefix, nil)
+	if p.fail() {
+		return 0, ErrInjectedWrite
+	}
 	n, err := p.Database.DeletePrefix(prefix)
 	p.post()
 	return n, err
 }
 func (p *DBProxy) DropPrefix(prefix []byte) error {
 	p.pre("DropPrefix", prefix, nil)
+	if p.fail() {
+		return ErrInjectedWrite
+	}
 	err := p.Database.DropPrefix(prefix)
 	p.post()
 	return err
